@@ -215,10 +215,10 @@ def travClauses (g : G) (idx seeds : List Nat) (ts : List (Int × Nat × Nat)) :
 def handler : Handler := fun op inp out =>
   let bad := ("-", fail "driver-cannot-parse-input")
   match op with
-  | "tables" | "probe" =>
+  | "tables" | "probe" | "gentables" =>
     match run (do let mask ← P.nat; let valid ← P.nat; let s ← P.rawSym; pure (mask, valid, s)) inp with
     | some (mask, valid, s) =>
-      let dense := op == "tables"
+      let dense := op != "probe"
       let grid := if dense then denseGrid s.size s.dim else probeGrid s.size s.dim
       let model := (modelReps s mask).flatMap (repTokens grid.1 grid.2)
       let g := specG s
